@@ -93,6 +93,22 @@ type esim struct {
 	miner   *miner.Miner
 	walks   *int64 // successful walks whose re-admission goroutine has started
 	recover *int64 // re-admission goroutines finished
+	trunc   []byte // truncate target the consensus hands to the next mining round (nil: none)
+}
+
+// truncCons is the node's consensus with one addition: ProcessBeforeMiner asks for the truncation the behaviour
+// prescribes (what tdpos / xpoa do when their bft layer rolls back).
+type truncCons struct {
+	consensus.ConsensusInterface
+	e *esim
+}
+
+func (c *truncCons) ProcessBeforeMiner(ts int64) ([]byte, []byte, error) {
+	t, st, err := c.ConsensusInterface.ProcessBeforeMiner(ts)
+	if c.e.trunc != nil {
+		t, c.e.trunc = c.e.trunc, nil
+	}
+	return t, st, err
 }
 
 func (e *esim) attach() error {
@@ -111,7 +127,7 @@ func (e *esim) attach() error {
 	if err != nil {
 		return fmt.Errorf("consensus: %v", err)
 	}
-	nd.Ctx.Consensus = cons
+	nd.Ctx.Consensus = &truncCons{ConsensusInterface: cons, e: e}
 	e.miner = miner.NewMiner(nd.Ctx)
 	return nil
 }
@@ -146,8 +162,8 @@ func ectx() xctx.XContext {
 
 // chainBlock formats a peer block on an explicit parent (which need not be in the ledger).
 func (e *esim) chainBlock(parent *pb.InternalBlock, uniq int, names []string, award int64) (*pb.InternalBlock, error) {
-	aw := e.award(uniq)
-	if award != e.cat.Award {
+	aw := e.award(uniq, parent.Height+1)
+	if award != e.cat.awardAt(parent.Height+1) {
 		aw.TxOutputs[0].Amount = amtBytes(award, true)
 		aw.Desc = []byte("badaward" + strconv.Itoa(uniq))
 		aw.Txid = nil
@@ -201,9 +217,9 @@ func (e *esim) estep(op fx.Ev) (string, fx.Ev, error) {
 		seqs := seqsOf(op["seqs"])
 		chain := []*pb.InternalBlock{}
 		for i, names := range seqs {
-			award := e.cat.Award
+			award := e.cat.awardAt(parent.Height + 1)
 			if kind == "badaward" && i == len(seqs)-1 {
-				award = e.cat.Award + 1
+				award++
 			}
 			e.uniq++
 			b, err := e.chainBlock(parent, 5000+e.uniq, names, award)
@@ -265,15 +281,23 @@ func (e *esim) estep(op fx.Ev) (string, fx.Ev, error) {
 			return "fail", extra, nil
 		}
 		return "ok", extra, nil
-	case "mine":
+	case "mine", "minetrunc":
+		if op.Str("op") == "minetrunc" {
+			d := e.blocks[op.Int("d")]
+			if d == nil {
+				return "noblock", extra, nil
+			}
+			e.trunc = d.Blockid
+		}
 		before := e.node.Ledger.GetMeta().TipBlockid
 		err := e.miner.MiningForVerif(ectx())
 		if qerr := e.quiesce(); qerr != nil {
 			return "", nil, qerr
 		}
 		names := []interface{}{}
+		e.trunc = nil
 		tip := e.node.Ledger.GetMeta().TipBlockid
-		if string(tip) != string(before) {
+		if _, known := e.ids[string(tip)]; !known && string(tip) != string(before) {
 			if blk, qerr := e.node.Ledger.QueryBlock(tip); qerr == nil {
 				e.n++
 				e.ids[string(tip)] = e.n
@@ -348,7 +372,7 @@ func engineReplay(args []string) error {
 		for _, op := range beh {
 			// the generated history also contains the specification's own micro-steps of a push: skip them
 			switch op.Str("op") {
-			case "push", "repush":
+			case "push", "repush", "minetrunc":
 				inPush = true
 			case "pushend":
 				inPush = false
